@@ -206,48 +206,59 @@ func init() {
 			if ty.HasOptional() {
 				c.Label("optional")
 			}
-			orig := ty.Cty()
-			for _, via := range []string{"method", "ctyjson"} {
-				var b []byte
-				var err error
-				var back cty.Type
-				if via == "method" {
-					b, err = orig.MarshalJSON()
-				} else {
-					b, err = ctyjson.MarshalType(orig)
+			origs := []cty.Type{ty.Cty()}
+			if hasEmptyStruct(ty) {
+				// the same type with its empty tuples / objects built from a nil
+				// slice / map, and from empty non-nil ones
+				origs = append(origs, ctyVariant(ty, 1), ctyVariant(ty, 2))
+				c.Label("empty-struct-variants")
+			}
+			for vi, orig := range origs {
+				if vi > 0 && (!orig.Equals(origs[0]) || !origs[0].Equals(orig)) {
+					return facet.Failf("equals-variant", "%s built with nil / empty element containers is not Equal to the same type built otherwise", ty)
 				}
-				if err == nil {
-					// other types are serialized before the bytes are read back: a
-					// serialization must not depend on the serializer being left alone
-					before := string(b)
-					for _, d := range decoyTypes {
-						if _, derr := d.MarshalJSON(); derr != nil {
-							return facet.Failf("json-error", "decoy type %#v: %v", d, derr)
-						}
-						if _, derr := ctyjson.MarshalType(d); derr != nil {
-							return facet.Failf("json-error", "decoy type %#v: %v", d, derr)
-						}
-					}
-					if string(b) != before {
-						return facet.Failf("json-output-overwritten", "%s: the bytes returned for %s were %s and read %s after other types had been serialized", via, ty, before, b)
-					}
+				for _, via := range []string{"method", "ctyjson"} {
+					var b []byte
+					var err error
+					var back cty.Type
 					if via == "method" {
-						err = (&back).UnmarshalJSON(b)
+						b, err = orig.MarshalJSON()
 					} else {
-						back, err = ctyjson.UnmarshalType(b)
+						b, err = ctyjson.MarshalType(orig)
 					}
-				}
-				if err != nil {
-					return facet.Failf("json-error", "%s: type %s does not survive JSON: %v (bytes %s)", via, ty, err, b)
-				}
-				if !json.Valid(b) {
-					return facet.Failf("json-invalid", "%s: invalid JSON %q", via, b)
-				}
-				if !back.Equals(orig) || !orig.Equals(back) {
-					return facet.Failf("json-changed", "%s: %s came back as %#v (bytes %s)", via, ty, back, b)
-				}
-				if !spec.FromCty(back).Equal(ty) {
-					return facet.Failf("json-changed-model", "%s: %s came back model-different: %s", via, ty, spec.FromCty(back))
+					if err == nil {
+						// other types are serialized before the bytes are read back: a
+						// serialization must not depend on the serializer being left alone
+						before := string(b)
+						for _, d := range decoyTypes {
+							if _, derr := d.MarshalJSON(); derr != nil {
+								return facet.Failf("json-error", "decoy type %#v: %v", d, derr)
+							}
+							if _, derr := ctyjson.MarshalType(d); derr != nil {
+								return facet.Failf("json-error", "decoy type %#v: %v", d, derr)
+							}
+						}
+						if string(b) != before {
+							return facet.Failf("json-output-overwritten", "%s: the bytes returned for %s were %s and read %s after other types had been serialized", via, ty, before, b)
+						}
+						if via == "method" {
+							err = (&back).UnmarshalJSON(b)
+						} else {
+							back, err = ctyjson.UnmarshalType(b)
+						}
+					}
+					if err != nil {
+						return facet.Failf("json-error", "%s: type %s does not survive JSON: %v (bytes %s)", via, ty, err, b)
+					}
+					if !json.Valid(b) {
+						return facet.Failf("json-invalid", "%s: invalid JSON %q", via, b)
+					}
+					if !back.Equals(orig) || !orig.Equals(back) {
+						return facet.Failf("json-changed", "%s: %s came back as %#v (bytes %s)", via, ty, back, b)
+					}
+					if !spec.FromCty(back).Equal(ty) {
+						return facet.Failf("json-changed-model", "%s: %s came back model-different: %s", via, ty, spec.FromCty(back))
+					}
 				}
 			}
 			return nil
@@ -470,4 +481,77 @@ func init() {
 			return nil
 		},
 	})
+}
+
+// hasEmptyStruct reports whether an empty tuple or object type occurs in t.
+func hasEmptyStruct(t spec.T) bool {
+	switch t.K {
+	case spec.KList, spec.KSet, spec.KMap:
+		return hasEmptyStruct(*t.E)
+	case spec.KTuple:
+		if len(t.Elems) == 0 {
+			return true
+		}
+		for _, e := range t.Elems {
+			if hasEmptyStruct(e) {
+				return true
+			}
+		}
+	case spec.KObject:
+		if len(t.Attrs) == 0 {
+			return true
+		}
+		for _, a := range t.Attrs {
+			if hasEmptyStruct(a.T) {
+				return true
+			}
+		}
+	}
+	return false
+}
+
+// ctyVariant builds the cty type of t like spec.T.Cty, except that empty
+// tuple and object types are built from nil containers (variant 1:
+// cty.Tuple(nil), cty.Object(nil)) or from empty non-nil ones (variant 2).
+func ctyVariant(t spec.T, variant int) cty.Type {
+	switch t.K {
+	case spec.KList:
+		return cty.List(ctyVariant(*t.E, variant))
+	case spec.KSet:
+		return cty.Set(ctyVariant(*t.E, variant))
+	case spec.KMap:
+		return cty.Map(ctyVariant(*t.E, variant))
+	case spec.KTuple:
+		if len(t.Elems) == 0 {
+			if variant == 1 {
+				return cty.Tuple(nil)
+			}
+			return cty.Tuple(make([]cty.Type, 0, 4))
+		}
+		es := make([]cty.Type, len(t.Elems))
+		for i, e := range t.Elems {
+			es[i] = ctyVariant(e, variant)
+		}
+		return cty.Tuple(es)
+	case spec.KObject:
+		if len(t.Attrs) == 0 {
+			if variant == 1 {
+				return cty.Object(nil)
+			}
+			return cty.Object(map[string]cty.Type{})
+		}
+		as := map[string]cty.Type{}
+		var opt []string
+		for _, a := range t.Attrs {
+			as[a.Name] = ctyVariant(a.T, variant)
+			if a.Opt {
+				opt = append(opt, a.Name)
+			}
+		}
+		if len(opt) > 0 {
+			return cty.ObjectWithOptionalAttrs(as, opt)
+		}
+		return cty.Object(as)
+	}
+	return t.Cty()
 }
